@@ -42,6 +42,7 @@ func (om *options) try(args []string, c *ParseContext) (bool, []string) {
 	if len(args) == 0 || c.RejectOptions {
 		return false, args
 	}
+	var envOnly *container.Container
 	for _, o := range om.options {
 		if _, exclude := c.ExcludedOpts[o]; exclude {
 			continue
@@ -49,10 +50,18 @@ func (om *options) try(args []string, c *ParseContext) (bool, []string) {
 		before := len(c.Opts[o])
 		if ok, nargs := (&opt{theOne: o, index: om.index}).Match(args, c); ok {
 			if o.ValueSetFromEnv && len(c.Opts[o]) == before {
-				c.ExcludedOpts[o] = struct{}{}
+				// satisfied by its env var only: keep looking for a member which consumes something
+				if envOnly == nil {
+					envOnly = o
+				}
+				continue
 			}
 			return true, nargs
 		}
+	}
+	if envOnly != nil {
+		c.ExcludedOpts[envOnly] = struct{}{}
+		return true, args
 	}
 	return false, args
 }
